@@ -554,4 +554,14 @@ theorem queued_operators_are_ready_and_distinct_single (w : World) (st : St) (re
   obtain ⟨o, e, ok⟩ := (inv.jobs.ok j hj).one
   exact ⟨o, e, by simpa [assignable] using ok.2.1, ok.2.2.1⟩
 
+/-- the same link for `priority-pool` (multi-operator containers): under its loop invariant (`C08.priority_pool_run_never_raises` re-establishes it tick after
+tick, from every fresh world) the queued jobs share no operator, none is empty, every operator of a queued job is PENDING or FAILED, and each operator's parents
+are COMPLETED or earlier in the same job; and nothing queued belongs to a pipeline that has not arrived yet -/
+theorem queued_jobs_are_ready_and_distinct_priority_pool (w : World) (st : St) (cs : List Ctr) (F : List Nat) (inv : PP.PPInv w st cs F) :
+    (st.jobs.flatMap (·.ops)).Nodup ∧ (∀ o ∈ st.jobs.flatMap (·.ops), w.store.pidOf o ∉ F) ∧
+    ∀ j ∈ st.jobs, j.ops ≠ [] ∧ (∀ o ∈ j.ops, w.store.stOf o = pending ∨ w.store.stOf o = failed) ∧ ParentsOK w.store j.ops := by
+  refine ⟨inv.jobs.nd, inv.jobsF, fun j hj => ⟨(inv.jobs.ok j hj).ne, fun o ho => ?_, (inv.jobs.ok j hj).par⟩⟩
+  have := ((inv.jobs.ok j hj).ok o ho).2.1
+  simpa [assignable] using this
+
 end Eudoxia.C12
